@@ -478,16 +478,50 @@ def poscheck(repo, schema=None, sites=None):
     return res
 
 
+def _find_type_judge(repo):
+    tc = repo.mod(TYPE_CHECK)
+    for f in tc.top_funcs():
+        params = [a.arg for a in f.node.args.args]
+        if len(params) != 2:
+            continue
+        a, b = params
+        for n in walk_no_nested_funcs(f.node):
+            if isinstance(n, ast.Compare) and len(n.ops) == 1:
+                l, r = ast.unparse(n.left), ast.unparse(n.comparators[0])
+                if {l, r} == {f"{a}.type.which_type", f"{b}.type.which_type"}:
+                    return tc, f
+    raise AnalysisError("type_check: the type-compatibility judgment function was not found")
+
+
 def typeeq(repo):
     res = RuleResult("R-TYPEEQ")
-    tc = repo.mod(TYPE_CHECK)
-    judge = None
-    for f in tc.top_funcs():
-        src = tc.seg(f.node)
-        if "which_type" in src and ".enumeration.name" in src and "hashable_form_of_reference" in src and len(f.node.args.args) == 2:
-            judge = f
-    if judge is None:
-        raise AnalysisError("type_check: the type-compatibility judgment function was not found")
+    tc, judge = _find_type_judge(repo)
+    a, b = [x.arg for x in judge.node.args.args]
+    # (1) the judgment itself: in the enumeration case it compares the *whole* identity of the two enum types
+    res.instances += 1
+    enum_cmp = None
+    for n in walk_no_nested_funcs(judge.node):
+        if isinstance(n, ast.Compare) and "enumeration" in ast.unparse(n) and len(n.ops) == 1:
+            l, r = n.left, n.comparators[0]
+            if "which_type" in ast.unparse(l):
+                continue
+            enum_cmp = (l, r, n)
+    if enum_cmp is None:
+        res.add(f"{tc.rel}|{judge.name}|enum", f"{judge.name} no longer compares the enum types of its two arguments",
+                tc.rel, judge.line, judge.name)
+    else:
+        l, r, node = enum_cmp
+        ls, rs = ast.unparse(l), ast.unparse(r)
+        sym = ls.replace(f"{a}.", "#.") == rs.replace(f"{b}.", "#.") or ls.replace(f"{b}.", "#.") == rs.replace(f"{a}.", "#.")
+        projected = any(isinstance(x, ast.Subscript) for x in ast.walk(l)) or any(isinstance(x, ast.Subscript) for x in ast.walk(r)) \
+            or ".text" in ls or "object_path" in ls or "module_file" in ls
+        whole = "type.enumeration.name" in ls and (ls.endswith("type.enumeration.name)") or ls.endswith(".canonical_name")
+                                                   or ls.endswith("type.enumeration.name"))
+        if not sym or projected or not whole:
+            res.add(f"{tc.rel}|{judge.name}|enum-identity", f"{judge.name} decides that two enum types are the same by comparing "
+                    f"`{ls}` with `{rs}`: only the complete canonical name (module and full path) identifies an enum; two "
+                    "different enums that share part of their name would be treated as one type", tc.rel, node.lineno, judge.name)
+    # (2) nobody else decides type agreement by kind alone
     for m in repo.compile_path_modules():
         if not m.rel.startswith("compiler/front_end/"):
             continue
